@@ -381,6 +381,14 @@ def extract(repo):
             raise Fail(f'ensure_active_blob_exists: {tag} not found')
         evs.append((m.start(), tag))
     g['ENSURE_ACTIVE_ORDER'] = [t for _, t in sorted(evs)]
+    # `Inner::merge_filters` (node filters of the container): whenever either side has no filter, or the merge is refused,
+    # the node falls back to `None` ("unknown": passes every key) - the fallback value of the `zip(..).map(..)` chain
+    hf = read(repo, 'src/filter/hierarchical.rs')
+    body = re.sub(r'\s+', '', fn_body(hf, 'merge_filters', 'in filter/hierarchical.rs'))
+    m = re.search(r'\.unwrap_or\((true|false)\)', body)
+    if not m or 'checked_add_assign' not in body or '*dest=None' not in body or not body.startswith('if!dest'):
+        raise Fail('merge_filters: shape not recognised')
+    g['MERGE_FILTERS_NO_FILTER_MERGES'] = (m.group(1) == 'true')
     # the writer's rotation test
     body = fn_body(sc, 'should_update_active_blob', 'in storage/core.rs')
     m1 = re.search(r'active_blob\.file_size\(\)\s*(>=|>|==|<=|<)\s*config_max_size', body)
